@@ -95,3 +95,12 @@ Fixpoint after_steps (c0 : Z) (pending : list (request * Z)) (ops : list op) (ob
    each record decodes to its request, refused requests left nothing *)
 Definition holds_seq (c0 : Z) (ops : list op) (obs : list step_obs) : bool :=
   match after_steps c0 [] ops obs with Some [] => true | _ => false end.
+
+(* A request whose record cannot be encoded in the 512-byte command buffer (here: terminate-driver with a token of 2^31 bytes
+   and more, which the model does not spell out byte by byte): by C13_reject the call answers Err TooLong, writes nothing,
+   leaves the tail at 0 and draws no correlation id.  Observation = (result, raw records, read records, tail, next id). *)
+Definition holds_reject (c0 : Z) (res : outcome Z) (raw rd : list (Z * list Z)) (tail next : Z) : bool :=
+  match res, raw, rd with
+  | Err TooLong, [], [] => (tail =? 0) && (next =? c0 + 1)
+  | _, _, _ => false
+  end.
